@@ -52,6 +52,21 @@ func (c compositeMatcher) Matches(request *heimdall.Request, keys, values []stri
 	return nil
 }
 
+// alternativesMatcher is satisfied if at least one of its matchers is satisfied, or if it is empty.
+type alternativesMatcher []RouteMatcher
+
+func (a alternativesMatcher) Matches(request *heimdall.Request, keys, values []string) error {
+	var err error
+
+	for _, matcher := range a {
+		if err = matcher.Matches(request, keys, values); err == nil {
+			return nil
+		}
+	}
+
+	return err
+}
+
 type schemeMatcher string
 
 func (s schemeMatcher) Matches(request *heimdall.Request, _, _ []string) error {
